@@ -843,6 +843,7 @@ def _run_case(spec):
     fails = []
     stats = Counter()
     ops_done = []
+    kept = []  # (returned deleted set, returned added set, their contents at return time, insertion number)
 
     def fail(clause, detail, k):
         if not fails:
@@ -960,6 +961,20 @@ def _run_case(spec):
             else:
                 fail("duplicate_rejected", f"the point {point} is already vertex {v} but add_point accepted it (hint {hint})", k)
             break
+        # the report is a VALUE: what an earlier insertion returned must not change when the triangulation changes later
+        for d_obj, a_obj, d0, a0, k0 in kept:
+            try:
+                d1 = {tuple(int(i) for i in t) for t in d_obj}
+                a1 = {tuple(int(i) for i in t) for t in a_obj}
+            except Exception:  # noqa: BLE001
+                continue
+            if d1 != d0 or a1 != a0:
+                fail("report_exact:report_changed_later",
+                     f"the report returned by insertion {k0} was deleted={show_sx(d0)} added={show_sx(a0)}; after insertion {k} the very "
+                     f"same returned objects read deleted={show_sx(d1)} added={show_sx(a1)} (the report aliases internal state)", k)
+                break
+        kept.append((ret[0], ret[1], set(D), set(A), k))
+        stats["reports_kept"] += 1
         if D != S0 - S1 or A != S1 - S0:
             fail("report_exact", f"add_point returned deleted={show_sx(D)} added={show_sx(A)} but the simplices actually removed are "
                                  f"{show_sx(S0 - S1)} and created {show_sx(S1 - S0)}", k)
@@ -1007,6 +1022,16 @@ def _run_case(spec):
                             "triangulation: the work-list cannot cross a hole, a point in or next to the gap gets a cavity that is not "
                             "star-shaped")
             fail(cl, det, k)
+    if not fails and kept:
+        # ... and consuming the reports (a caller may pop from the sets it was given) must not touch the triangulation
+        for d_obj, a_obj, _, _, _ in kept:
+            for o_ in (d_obj, a_obj):
+                if isinstance(o_, set):
+                    o_.clear()
+        for cl, det in audit.structure(tri):
+            fail("report_exact:consuming_a_report_changed_the_triangulation",
+                 f"after emptying the (deleted, added) sets returned by the insertions: {cl}: {det}", len(ops_done))
+            break
     stats.update(audit.stats)
     stats["dim:%d" % dim] += 1
     stats["family:" + family] += 1
